@@ -84,7 +84,7 @@ def check_selectors(rep, fl, rule="R02.1"):
         for f in adt["variants"][0]["fields"]:
             if f["name"] == "shards":
                 ty = f["ty"]
-    rep.check(("; %d]" % n) in ty, rule, fl, SM, "array length", "the shard array has NUM_OF_SHARDS = %d elements" % n, "shards has type %s but NUM_OF_SHARDS is %d" % (ty, n))
+    rep.check(("; %d]" % n) in ty or "; NUM_OF_SHARDS]" in ty or "; store::NUM_OF_SHARDS]" in ty, rule, fl, SM, "array length", "the shard array has NUM_OF_SHARDS = %d elements" % n, "shards has type %s but NUM_OF_SHARDS is %d" % (ty, n))
     # len() sums every shard ; clear() clears every shard
     lb = facts.body(SM + "::len")
     e = norm(return_expr(lb))
